@@ -160,7 +160,10 @@ class C17(Check):
                 handlers.append({'types': draw(st.lists(texpr, min_size=1, max_size=4)), 'open': draw(st.booleans())})
                 if handlers[-1]['open'] and draw(st.integers(0, 2)) == 0:
                     handlers[-1]['pre_dots'] = draw(st.integers(0, len(handlers[-1]['types']) - 1))
-            return {'forest': forest, 'raised': raised, 'handlers': handlers}
+            case = {'forest': forest, 'raised': raised, 'handlers': handlers}
+            if draw(st.integers(0, 2)) == 0:
+                case['shared'] = [draw(st.integers(0, 4)), draw(st.sampled_from(['sibling', 'deep']))]
+            return case
         return gen()
 
     def scope_case(self, case, out):
@@ -297,9 +300,22 @@ class C17(Check):
             out.evals = max(out.evals, 1)
             return out
         w = World(case.get('forest'))
-        raised = case['raised']
+        raised = list(case['raised'])
         try:
-            exc = Concurrent(*[w.make_exc(t) for t in raised])
+            objs = [w.make_exc(t) for t in raised]
+            sh = case.get('shared')
+            if sh and raised:
+                # the very same failure object occurs twice in the hierarchy (two awaiters of one failed task
+                # report the identical exception): as a sibling, or once more inside another nested failure
+                i = sh[0] % len(raised)
+                if sh[1] == 'sibling':
+                    objs.append(objs[i])
+                    raised.append(raised[i])
+                else:
+                    objs.append(Concurrent(objs[i]))
+                    raised.append({'c': [raised[i]]})
+                out.features.add('shared_object')
+            exc = Concurrent(*objs)
         except RecursionError:
             raise InvalidCase('too deep')
         # ---- type depends only on the set of child types; equal specialisations are identical
